@@ -8,6 +8,10 @@ CONSTANTS
   Messages <- GenMessages
   Servers <- GenServers
   Forms <- GenForms
+  Vias <- GenVias
+  XCodes <- QuickXCodes
+  XStatuses <- QuickXStatuses
+  XMessages <- QuickXMessages
   MaxServes = 1
   Deviation = "none"
 INVARIANTS Emit SuccessIff EnvelopeWellFormed ErrorOwnCode UnmarshalableIsError ClientNeverConfuses ResponseOfCurrentValue
